@@ -341,9 +341,21 @@ func synthParams(r *core.Rand) *chaincfg.Params {
 var edgeMantissas = []uint32{0, 1, 2, 0x7f, 0x80, 0xff, 0x100, 0x7fff, 0x8000, 0xffff, 0x10000,
 	0x7fffff, 0x800000, 0x800001, 0x80ffff, 0xffffff, 0x00ffff, 0x0377ae, 0x123456, 0x400000, 0x3fffff}
 
+// Generate never crashes on a (mutated) tree: generators call the real code only to shape inputs; if such a
+// call panics outside the per-call guards, the cases emitted so far are kept and a marker case makes the
+// run fail with a concrete line instead of a crashed harness.
 func (P) Generate(g *core.Gen) {
-	generateBase(g)
-	generateHard(g)
+	for i, gen := range []func(*core.Gen){generateBase, generateHard} {
+		name := []string{"base", "hard"}[i]
+		func() {
+			defer func() {
+				if r := recover(); r != nil {
+					g.Case("generator-panic", true, fmt.Sprintf("C09 genpanic %s", name))
+				}
+			}()
+			gen(g)
+		}()
+	}
 }
 
 func generateBase(g *core.Gen) {
